@@ -87,6 +87,12 @@ def plans(chk, tier, k):
                 "%d threads, %s" % (threads, "blocks freed by the neighbour thread" if xfree else "blocks freed by their owner"))
     add(4, 4 if quick else 10, 2, 48, 300 if quick else 1500, 80, 10, 1, small[:12], [1, 16, 64], "4 threads, zeroed small blocks, churn")
     add(2, 4 if quick else 10, 2, 24, 250 if quick else 1000, 10, 75, 0, small, [32, 64, 4096, 8192], "2 threads, realloc of over-aligned blocks")
+    # history length: few live blocks of the largest non-direct classes, many repetitions - whatever is
+    # lost per repetition adds up against an envelope that only knows the (small) peak demand
+    large = [x for x in small if x >= 30000] or small[-4:]
+    for threads in (4, 2):
+        add(threads, 30 if quick else 120, 2, 4, 60, 20, 20, 1, large, [16, 64],
+            "%d threads, few large blocks, long history (memory held vs. peak demand)" % threads)
     return out
 
 
@@ -139,7 +145,11 @@ def to_trace(plan, raw, runno):
     marks = [e for e in evs if e.get("ev") in ("high", "rep", "end")]
     info = {"ops": len(ops), "complete": any(e.get("ev") == "bye" for e in evs), "skipped": False,
             "null": 0, "threads": plan["threads"]}
-    out = [{"ev": "reset", "run": runno, "plan": plan["idx"], "c04": True, "base": plan["base"], "real": True}]
+    # SteadyState is only judged on single-threaded runs: for the others every repetition counts as
+    # baseline (AllocTrace reports at most 6 violating steps per run - steps that would be filtered
+    # out afterwards must not use that budget up)
+    base_reps = plan["base"] if plan["threads"] == 1 else plan["reps"] + 1
+    out = [{"ev": "reset", "run": runno, "plan": plan["idx"], "c04": True, "base": base_reps, "real": True}]
     if reset is None:
         out.append({"ev": "crash", "why": "no run started"})
         return out, info
